@@ -49,3 +49,16 @@ package fd
 //@     set conf := r
 //@   callee ParseDuration(s) (d, e)
 //@     ensures e == nil ==> 0 <= d && d <= 86400000000000
+
+// getStaticInfo (C09: "handed ... to the dead-queue output when one is configured"):
+// the registry entries returned by plugins.Get are shared by all pipelines; what a
+// pipeline configures - its output's config and its dead queue's config - goes into
+// copies: the dead-queue info handed on is an object allocated by this call, and so
+// is the result.
+
+//@ func (*FileD).getStaticInfo
+//@   option allow-exit yes
+//@   assert at "infoCopy := *info" deadqueueInfo != nil ==> fresh(deadqueueInfo)
+//@   ensures result1 == nil ==> fresh(result0)
+//@   callee Get(kind, t) (info, err)
+//@     ensures err == nil ==> info != nil
